@@ -442,6 +442,15 @@ Definition step (s : state) (l : label) : option state :=
     match nth_error (calls s) c with
     | Some k => match k_ph k with PTReady => Some (set_call c k PTAwait s) | _ => None end
     | None => None end
+  (* LTResp: conn.run (transport.go) resolves the promise the caller awaits.  async.resolve / async.reject are
+     sends on the channel created by sendRequest with make(async, 1): with capacity 1 the send never
+     blocks, also when the caller has already left through <-ctx.Done() (LRetCtx) — only then can the
+     connection goroutine go on, release or close its connection and end.  The connection goroutine
+     is not part of this model; the capacity is skeleton assumption T6 of
+     Model/SkeletonAssumptions.v (transport_assumptions: every make(async, n) has n = 1), checked
+     against /repo by C06 and exercised on the implementation by the late-answer scenarios of
+     harness/cmd/c09r (context ends during a round trip, the answer or a connection error comes
+     later; afterwards every connection goroutine must be gone and every connection closed). *)
   | LTResp c ok =>
     match nth_error (calls s) c with
     | Some k => match k_ph k with PTAwait => Some (ret c k (if ok then RNil else ROther) s) | _ => None end
